@@ -249,6 +249,8 @@ def mk_tree(g):
 
 
 def mk_importer(g):
+    if not g.symbolic:
+        return Importer()
     imp = g.new(Importer, {'last_measure_number': None, 'last_bounding_box': None, 'errors': [], '_tree': None, '_document': g.new(Document, {}, None),
                            '_importers': {}, '_header_row_number': None, '_row_number': 1, '_tree_stage': 0, '_next_stage_parents': None,
                            '_prev_stage_parents': None, '_last_node_previous_to_header': None}, None)
@@ -277,3 +279,8 @@ def mk_full_importer(g):
     return g.new(Importer, {'last_measure_number': None, 'last_bounding_box': None, 'errors': [], '_tree': tree, '_document': doc,
                             '_importers': {}, '_header_row_number': hrn, '_row_number': g.int('row_number', 1), '_tree_stage': g.int('tree_stage', 1),
                             '_next_stage_parents': nxt, '_prev_stage_parents': prev, '_last_node_previous_to_header': last}, None)
+
+
+
+def mk_token_list(g, name):
+    return g.mlist(name, lambda e: e.new(SimpleToken, {'encoding': e.str_sym('encoding'), 'category': e.enum('category', TokenCategory), 'hidden': False}, None))
